@@ -111,6 +111,15 @@ pub struct Shared {
 impl Shared {
     pub fn push(&self, ev: Ev) -> usize {
         let mut e = self.events.borrow_mut();
+        // a library that spins on a zero-length write inside one poll would otherwise fill the
+        // memory of the machine long before the watchdog reports the hang: the same fault
+        // event is recorded at most 16 times in a row
+        if matches!(ev, Ev::WriteFault { .. } | Ev::ReadEof { .. } | Ev::ReadErr { .. }) {
+            let n = e.len();
+            if n >= 16 && e[n - 16..].iter().all(|x| *x == ev) {
+                return n - 1;
+            }
+        }
         e.push(ev);
         e.len() - 1
     }
